@@ -221,6 +221,7 @@ class Ipmi(bmc.Bmc, chassis.Chassis, dcmi.Dcmi, fru.Fru, picmg.Picmg, hpm.Hpm,
             except CompletionCodeError as e:
                 if e.cc == msgs.constants.CC_NODE_BUSY:
                     continue
+                raise
         else:
             raise RetryError()
 
